@@ -6,7 +6,9 @@
      is_cl_key / is_te_key         which scanned keys parseHeaders treats as Content-Length / Transfer-Encoding
      steps, Scanned, HeadFields    the `for s.next()` loop of parseHeaders as a fold over the scanned fields
                                    (Proof/FramingProof.v ties them to ReqHead.req_headers_loop)
-     parse_trailer                 header.go parseTrailer (over Lines.v's scanner)
+     parse_trailer                 header.go parseTrailer (over Lines.v's scanner): per field the key trim, isBadTrailer,
+                                   value check, canonicalisation and the append to the request's header list
+     read_req_message              the body read plus the serve loop's MayContinue() re-evaluation after the body
      read_trailer                  header.ReadTrailer / tryReadTrailer over the reader window
      multipart_boundary            RequestHeader.MultipartFormBoundary
      serve_frames                  Server.serveConnCounted restricted to request framing: head, parseURI, GetOnly,
@@ -111,51 +113,52 @@ Definition HeadFields (w : bytes) (line : req_line) (l : list kv3) : Prop :=
      (exists b r, scan_init rest rawEnd = Ok (IReady b) /\ Scanned b 0 l None r)).
 
 (* ================= trailers ================= *)
-Inductive ptr_res := PTOk (n : nat) | PTNeedMore | PTErr.
+(* parseTrailer(src, dest = h.h, disableNormalizing): the consumed length and the fields it APPENDS to the request's
+   header list (trimmed, canonicalised key; value) / ErrNeedMore / error *)
+Inductive ptr_res := PTOk (n : nat) (tf : kvs) | PTNeedMore | PTErr.
 
-Fixpoint trailer_loop (fuel : nat) (b : bytes) (r : nat) : R ptr_res :=
+Fixpoint trailer_loop (fuel : nat) (dn : bool) (b : bytes) (r : nat) (acc : kvs) : R ptr_res :=
   match fuel with
   | O => OutOfFuel
   | S f =>
       do nx <- scan_next b r;
       match nx with
-      | NStop None r1 => Ok (PTOk r1)
+      | NStop None r1 => Ok (PTOk r1 acc)
       | NStop (Some _) _ => Ok PTErr
-      | NKV k v _ r1 =>
-          match trimTrailingSpace k with
-          | [] => trailer_loop f b r1
+      | NKV k v inner r1 =>
+          match trimTrailingSpace k with                          (* "Content-Length :" -> "Content-Length:" *)
+          | [] => trailer_loop f dn b r1 acc                      (* len(s.key) == 0: continue *)
           | key =>
-              do bad <- isBadTrailer key;
+              do bad <- isBadTrailer key;                         (* forbidden trailer key, checked AFTER the trim *)
               if bad then Ok PTErr
               else if negb (validValue v) then Ok PTErr
-              else trailer_loop f b r1
+              else trailer_loop f dn b r1 (appendArg acc (normalizeHeaderKeyValidated key (dn || inner)) v)
           end
       end
   end.
 
-(* parseTrailer(src, ...) : consumed length / ErrNeedMore / error *)
-Definition parse_trailer (src : bytes) : R ptr_res :=
+Definition parse_trailer (dn : bool) (src : bytes) : R ptr_res :=
   do ir <- scan_init src 0;
   match ir with
-  | IEmpty => Ok (PTOk 2)
+  | IEmpty => Ok (PTOk 2 [])
   | INeedMore => Ok PTNeedMore
   | IStartSpace => Ok PTErr
   | IBadBlockEnd => Ok PTErr                    (* unreachable: blockEnd = 0 *)
-  | IReady b => trailer_loop (S (length b)) b 0
+  | IReady b => trailer_loop (S (length b)) dn b 0 []
   end.
 
 Inductive eclass := EBad | ESmallBuf.       (* defaultErrorHandler: 400 / 431 *)
 
-Inductive tr_res := TrDone (rest : bytes) | TrFail (e : eclass) | TrBug.
+Inductive tr_res := TrDone (rest : bytes) (tf : kvs) | TrFail (e : eclass) | TrBug.
 
 (* header.ReadTrailer over the reader window; io.EOF is turned into ErrBrokenChunk by ContinueReadBody *)
-Definition read_trailer (bsize : nat) (r : bytes) : tr_res :=
+Definition read_trailer (dn : bool) (bsize : nat) (r : bytes) : tr_res :=
   match r with
   | [] => TrFail EBad
   | _ =>
       let w := firstn bsize r in
-      match parse_trailer w with
-      | Ok (PTOk n) => TrDone (skipn n r)
+      match parse_trailer dn w with
+      | Ok (PTOk n tf) => TrDone (skipn n r) tf
       | Ok PTErr => TrFail EBad
       | Ok PTNeedMore =>
           if (bsize <=? length r) && negb (isOnlyCRLF w) then TrFail ESmallBuf else TrFail EBad
@@ -264,8 +267,8 @@ Definition err_out (e : eclass) : list dispatched * list response * outcome :=
 
 Definition is_get_or_head (m : bytes) : bool := beq m strMethodGet || beq m strMethodHead.
 
-(* ContinueReadBody after the head: the body, the unread rest *)
-Inductive rb_res := RbOk (body : option bytes) (rest : bytes) | RbFail (e : eclass) | RbEof | RbBug.
+(* ContinueReadBody after the head: the body, the unread rest, the trailer fields merged into the header list *)
+Inductive rb_res := RbOk (body : option bytes) (rest : bytes) (tf : kvs) | RbFail (e : eclass) | RbEof | RbBug.
 
 Definition read_req_body (c : fcfg) (hd : req_head) (rest : bytes) : rb_res :=
   let cl := content_length hd in
@@ -279,12 +282,12 @@ Definition read_req_body (c : fcfg) (hd : req_head) (rest : bytes) : rb_res :=
             (* readMultipartForm over io.LimitReader(r, cl), then the rest of the cl bytes is discarded *)
             if (Z.of_nat (length rest) <? cl)%Z then RbFail EBad                                   (* unexpected EOF *)
             else match Multipart.read_form boundary cl rest with
-                 | Some _ => RbOk None (skipn (Z.to_nat cl) rest)
+                 | Some _ => RbOk None (skipn (Z.to_nat cl) rest) []
                  | None => RbFail EBad
                  end
         | _ =>
             match reqReadBody trailer_reject cl (c_maxbody c) rest with
-            | BOk body r _ => RbOk (Some body) r
+            | BOk body r _ => RbOk (Some body) r []
             | BErr _ _ _ => RbFail EBad
             | _ => RbBug
             end
@@ -293,8 +296,8 @@ Definition read_req_body (c : fcfg) (hd : req_head) (rest : bytes) : rb_res :=
         if (cl =? -1)%Z then
           match readBodyChunked (c_maxbody c) [] rest with
           | BOk body r _ =>
-              match read_trailer (c_bsize c) r with
-              | TrDone r' => RbOk (Some body) r'
+              match read_trailer (c_nonorm c) (c_bsize c) r with
+              | TrDone r' tf => RbOk (Some body) r' tf
               | TrFail e => RbFail e
               | TrBug => RbBug
               end
@@ -304,16 +307,52 @@ Definition read_req_body (c : fcfg) (hd : req_head) (rest : bytes) : rb_res :=
           end
         else
           match reqReadBody trailer_reject cl (c_maxbody c) rest with
-          | BOk body r _ => RbOk (Some body) r
+          | BOk body r _ => RbOk (Some body) r []
           | BErr _ _ _ => RbFail EBad
           | _ => RbBug
           end
     end.
 
+(* What serveConnCounted does between the head and the handler.  readLimitBody reads the body unless
+   MayContinue() (expect = the head carries "Expect: 100-continue"; then the loop writes "100 Continue" and calls
+   ContinueReadBody).  The loop evaluates MayContinue() AFTER the body was read: parseTrailer has appended the
+   trailer fields to the header list by then, so a trailer field that Peek("Expect") finds would make the loop
+   write "100 Continue" and call ContinueReadBody a SECOND time (again = true): with contentLength still -1
+   (a non-empty chunked body; an empty one has set it to 0) that reads the bytes after the message as another
+   chunked body, which replaces the first.  isBadTrailer forbids "Expect" (Proof.FramingProof.no_expect_injection:
+   again is never true), which is exactly what keeps the loop from re-framing the connection. *)
+Inductive rm_res :=
+| RmOk (body : option bytes) (rest : bytes) (again : bool)
+| RmFail (e : eclass) (again : bool)
+| RmEof (again : bool)
+| RmBug.
+
+Definition body_is_empty (body : option bytes) : bool := match body with Some [] => true | _ => false end.
+
+Definition read_req_message (c : fcfg) (hd : req_head) (expect : bool) (b : bytes) : rm_res :=
+  match read_req_body c hd b with
+  | RbOk body rest tf =>
+      let again := negb expect && beq (peekArgBytes (fields hd ++ tf) strExpect) str100Continue in
+      if again then
+        if (content_length hd =? -1)%Z && negb (body_is_empty body) then
+          match read_req_body c hd rest with                     (* ContinueReadBody with ContentLength() = -1 *)
+          | RbOk body2 rest2 _ => RmOk body2 rest2 true
+          | RbFail e => RmFail e true
+          | RbEof => RmEof true
+          | RbBug => RmBug
+          end
+        else RmOk body rest true                                 (* ContentLength() = 0 by now: nothing more is read *)
+      else RmOk body rest false
+  | RbFail e => RmFail e false
+  | RbEof => RmEof false
+  | RbBug => RmBug
+  end.
+
 Definition cons_d (d : dispatched) (x : list dispatched * list response * outcome) :=
   let '(ds, rs, o) := x in (d :: ds, rs, o).
 Definition cons_r (r : response) (x : list dispatched * list response * outcome) :=
   let '(ds, rs, o) := x in (ds, r :: rs, o).
+Definition continue_resp : response := {| rs_status := StatusContinue; rs_close := false |}.
 
 (* rem = the unread stream, off = its offset *)
 Fixpoint serve (fuel : nat) (c : fcfg) (rem : bytes) (off : nat) : list dispatched * list response * outcome :=
@@ -337,18 +376,18 @@ Fixpoint serve (fuel : nat) (c : fcfg) (rem : bytes) (off : nat) : list dispatch
                   if c_getonly c && negb (is_get_or_head (meth hd)) then err_out EBad           (* ErrGetOnly *)
                   else
                     let expect := beq (peekArgBytes (fields hd) strExpect) str100Continue in
-                    let pre (x : list dispatched * list response * outcome) :=
-                      if expect then cons_r {| rs_status := StatusContinue; rs_close := false |} x else x in
-                    match read_req_body c hd (skipn n rem) with
-                    | RbFail e => pre (err_out e)
-                    | RbEof => pre ([], [], OEofBody)
-                    | RbBug => ([], [], OBug)
-                    | RbOk body rest =>
+                    let pre (again : bool) (x : list dispatched * list response * outcome) :=
+                      if expect || again then cons_r continue_resp x else x in
+                    match read_req_message c hd expect (skipn n rem) with
+                    | RmFail e again => pre again (err_out e)
+                    | RmEof again => pre again ([], [], OEofBody)
+                    | RmBug => ([], [], OBug)
+                    | RmOk body rest again =>
                         let len := length rem - length rest in
                         let d := {| dp_win := w; dp_off := off; dp_hlen := n; dp_len := len; dp_method := meth hd;
                                     dp_uri := target hd; dp_body := body; dp_close := conn_close hd |} in
                         let r := {| rs_status := StatusOK; rs_close := conn_close hd |} in
-                        pre (cons_d d (cons_r r
+                        pre again (cons_d d (cons_r r
                           (if conn_close hd then ([], [], OClosed)
                            else if (0 <? len) && (len <=? length rem) then serve f c rest (off + len)
                            else ([], [], OBug))))
